@@ -289,9 +289,15 @@ Verify(h, key, s, hdr, msgs) ==
   /\ UNCHANGED << keys, objs >>
 
 \* to_bytes / from_bytes round trip of an artefact: the same artefact comes back
+\* (a tampered artefact may no longer decode: whole scalars removed below the minimum, identity points)
+Decodable(os, h) ==
+  CASE os[h].kind = "sig"    -> SigDecodable(os, h)
+    [] os[h].kind = "proof"  -> ProofDecodable(os, h) /\ (("F1" \in Dev) \/ os[h].mut \cap {201, 202, 203} = {})
+    [] os[h].kind = "commit" -> CommitDecodable(os, h)
+    [] OTHER                 -> TRUE
 RoundTrip(h) ==
   /\ h \in 1 .. NObj
-  /\ last' = Rec("RoundTrip", [obj |-> h], "Ok", "Ok", h)
+  /\ last' = Rec("RoundTrip", [obj |-> h], B2R(Decodable(objs, h)), B2R(Decodable(objs, h)), h)
   /\ UNCHANGED << keys, objs >>
 
 \* an attacker replaces field(s) of an encoded artefact by other well-formed values
